@@ -22,7 +22,7 @@ def _hdr_hash():
     serializeOp): its cache key must cover the repo headers, not only the library archive."""
     from translate import serialops
     h = hashlib.sha256()
-    for fn in ("serial_codec.hpp", "serial_objects.hpp", "serial_probes.hpp"):
+    for fn in ("serial_codec.hpp", "serial_objects.hpp", "serial_probes.hpp", "serial_flags.hpp"):
         h.update(open(os.path.join(vlib.VERIF, "harness", fn), "rb").read())
     for p in serialops._sources(vlib.REPO):
         if p.endswith(".hpp"):
@@ -52,7 +52,9 @@ def run(ctx):
     ctx.stage_translate(["serialops"])
     if not ctx.stage_build_opm():
         return ctx.finish(trusted_base=TRUSTED)
-    ok, exe, out = vlib.build_harness("serial", extra_flags=(f"-DSERIAL_HDR_HASH={_hdr_hash()}",))
+    # second TU: MemPacker.cpp of the working tree + bitset instantiations for widths the library lacks
+    ok, exe, out = vlib.build_harness("serial", extra_src=(os.path.join(vlib.VERIF, "harness", "serial_bitsets.cpp"),),
+                                      extra_flags=(f"-DSERIAL_HDR_HASH={_hdr_hash()}",))
     if not ok:
         ctx.tie_broken("harness", "serial harness does not compile: " + out[-2000:])
         return ctx.finish(trusted_base=TRUSTED)
